@@ -120,7 +120,24 @@ inline std::string gen_key(Src& s, const Opts& o) {
 }
 
 // boundary-biased integer as a Val::Int in [-2^63, 2^64)
+// set by the history executor in builds with ARDUINOJSON_USE_LONG_LONG=0: on this LP64 host `long` is
+// 64 bits wide while the storage is 32, so histories stay within what a real target of that
+// configuration can express (C09 keeps the wide values: out-of-range integers must become null)
+inline bool& clamp_int32() {
+  static bool v = false;
+  return v;
+}
+inline Val gen_int_wide(Src& s);
 inline Val gen_int(Src& s) {
+  Val v = gen_int_wide(s);
+  if (clamp_int32()) {
+    if (v.neg && v.mag > 2147483648ull) v.mag %= 2147483648ull;
+    if (!v.neg && v.mag > 2147483647ull) v.mag %= 2147483648ull;  // also reachable through the signed C++ types
+    if (v.mag == 0) v.neg = false;
+  }
+  return v;
+}
+inline Val gen_int_wide(Src& s) {
   static const unsigned w[] = {6, 6, 3, 2, 2};
   switch (s.pick(w)) {
     case 0: {  // small
